@@ -1,6 +1,10 @@
-from plasTeX.Base.LaTeX.Quotations import verse
+from plasTeX.Base.LaTeX import Quotations
 
-verse.args = '[ width:nox ]'
+# Subclass the base environment instead of changing it: the base class
+# is shared by all documents, also by those that do not load this package
+
+class verse(Quotations.verse):
+    args = '[ width:nox ]'
 
 class altverse(verse):
     pass
